@@ -98,6 +98,21 @@ fn c06_scn(name: &str, full: bool, preconfigured: bool) -> ChatScn {
     s
 }
 
+/// Endings under `default_user_modes.local_oper`: every user starts as a local operator, OPER
+/// makes it a global one as well - it is one operator all the same when its session ends.
+fn c06_localoper_scn() -> ChatScn {
+    let mut s = c06_scn("c06-endings-default-localoper", false, false);
+    s.cfg.def_modes = (false, false, true, false, false);
+    s.cfg.label = "oper+default-local_oper".into();
+    s.prelude = vec![(1, "JOIN #x".into())];
+    s.alphabet_for.retain(|(slot, t)| *slot == 0 && ["JOIN #x", "MODE {me} +i", "MODE {me} +w", "QUIT"].contains(t));
+    for t in ["OPER op oppw", "MODE {me} -o", "MODE {me} -O"] {
+        s.alphabet_for.push((0, t));
+    }
+    s.alphabet_for.push((1, "KILL vic :bye"));
+    s
+}
+
 /// After an ending: the nick re-registers at once; survivors' views no longer
 /// show the user; WHOWAS has the record.
 fn c06_after(_scn: &ChatScn, w: &mut World, pre: &View, obs: &StepObs, post: &View, goals: &mut BTreeSet<String>) -> Vec<Finding> {
@@ -767,6 +782,7 @@ pub fn plan(property: &str, quick: bool) -> Plan {
             parts: vec![
                 Part::Bfs(Box::new(c06_scn("c06-endings", !quick, false)), lim(if quick { 6 } else { 7 }, 3_000_000, t(30.0, 900.0))),
                 Part::Bfs(Box::new(c06_scn("c06-endings-preconfigured", false, true)), lim(if quick { 5 } else { 7 }, 3_000_000, t(15.0, 600.0))),
+                Part::Bfs(Box::new(c06_localoper_scn()), lim(if quick { 5 } else { 6 }, 2_000_000, t(15.0, 300.0))),
                 Part::Bfs(Box::new(c06_timeout_scn("c06-timeout")), lim(if quick { 6 } else { 8 }, 1_000_000, t(10.0, 300.0))),
                 Part::Bfs(Box::new(c06_ghost(!quick)), lim(if quick { 6 } else { 8 }, 2_000_000, t(20.0, 600.0))),
                 // an ending applied while another connection takes over the nickname: every interleaving (E-INT)
